@@ -6,11 +6,13 @@ here=$(pwd)
 ./check setup > /dev/null || exit 2
 for d in seeded/*/; do
   name=$(basename $d)
+  if python3 -c "import json,sys;sys.exit(0 if json.load(open('$d/meta.json')).get('retired') else 1)"; then echo "$name: retired (see meta.json)"; continue; fi
   prop=$(python3 -c "import json;print(json.load(open('$d/meta.json'))['property'])")
   wt=/tmp/powerwt-$$-$name; where=""
   for base in $(python3 -c "import json;m=json.load(open('$d/meta.json'));print(m.get('base_commit','') if m.get('pin_base') else '')") HEAD 864492d 9004744; do
     git -C /repo worktree add -q --detach $wt $base 2>/dev/null || continue
-    if git -C $wt apply $here/$d/patch.diff 2>/dev/null; then where=$base; break; fi
+    pf=$here/$d/patch.diff; [ "$base" = HEAD ] && [ -f $here/$d/patch_head.diff ] && pf=$here/$d/patch_head.diff
+    if git -C $wt apply --3way $pf >/dev/null 2>&1 && ! git -C $wt diff --name-only --diff-filter=U | grep -q .; then where=$base; break; fi
     git -C /repo worktree remove --force $wt
   done
   [ -z "$where" ] && { echo "$name: patch applies nowhere"; continue; }
